@@ -377,7 +377,15 @@ def run(prop, tier, seed, replay):
     nmech, ndesign, nport = BUDGET[prop][tier]
     r.run_corpus()
     if ok:
-        r.run_mechanisms(nmech, nport)
+        try:
+            r.run_mechanisms(nmech, nport)
+        except Exception:  # noqa
+            # the mechanism stage drives internal functions of the reader/writer: if their interface changed
+            # shape the stage cannot run - that correspondence is broken; the whole-file stages below still run
+            import traceback
+            r.mech = {'cases': 0, 'note': 'mechanism stage could not run on this tree'}
+            r.rep.violation('mech-crash', {'kind': 'correspondence-broken', 'what': 'the mechanism-level correspondence could not be carried out (internal interface changed?)',
+                                           'traceback': traceback.format_exc()[-3000:]}, found_input=False)
     else:
         r.mech = {'cases': 0, 'note': 'driver not built'}
     r.run_files()
